@@ -15,6 +15,12 @@ GeffProps.C12.  Four case kinds:
                    the per-matrix verdicts of the two numpy tests as given) and compared;
   lineage_masked   validate_data(lineage=True) on id properties with a missing mask (repair D14): all digraphs on
                    <=3 nodes x masks x labellings + TrackMate-like forests with lone unlabelled spots;
+  dispatch_store   the same grid THROUGH THE READER: geffs written with the raw writer to a MemoryStore (path, one edge,
+                   edgeless, single node, empty, edge-only x invalid data per validator), read back under all 32 configs
+                   with read_to_memory(data_validation=...) and geff.read(..., backend="networkx"), against the oracle;
+  history          sequences of validate_data calls on ONE in-memory geff object (config / directedness vary) with a
+                   byte snapshot of every array around each call (a validator must not modify its input, a verdict must
+                   not depend on earlier calls), on plain / read-only / non-contiguous / Fortran / big-endian arrays;
   dispatch         all 2^5 configs x declarations x which validators' data is invalid; the validators are
                    wrapped to record which ones are evaluated.
 
@@ -70,6 +76,50 @@ def _meta(directed=True, axes=None, sphere=None, ellipsoid=None, track=None, pro
         axes=None if axes is None else [geff_spec.Axis(name=f"a{i}", type=t) for i, t in enumerate(axes)],
         node_props_metadata={p: geff_spec.PropMetadata(identifier=p, dtype=d) for p, d in props},
         edge_props_metadata={}, sphere=sphere, ellipsoid=ellipsoid, track_node_props=track)
+
+
+VARIANTS = ["plain", "readonly", "noncontiguous", "fortran", "bigendian"]
+
+
+def variant_array(a, variant):
+    """the same values held differently: read-only, non-contiguous view, Fortran order, non-native byte order"""
+    a = np.asarray(a)
+    if variant == "plain":
+        return a.copy()
+    if variant == "readonly":
+        b = a.copy()
+        b.setflags(write=False)
+        return b
+    if variant == "noncontiguous":
+        if a.ndim == 0:
+            return a.copy()
+        big = np.zeros(a.shape[:-1] + (2 * a.shape[-1] + 1,), dtype=a.dtype)
+        big[..., 1::2] = a
+        return big[..., 1::2]
+    if variant == "fortran":
+        return np.asfortranarray(a.copy())
+    if variant == "bigendian":
+        return a.astype(a.dtype.newbyteorder(">"))
+    raise ValueError(variant)
+
+
+def snapshot(g):
+    """bytes, dtype and shape of every array of an in-memory geff"""
+    out = {}
+    for k in ("node_ids", "edge_ids"):
+        a = g[k]
+        out[k] = (a.tobytes(), str(a.dtype), a.shape)
+    for grp in ("node_props", "edge_props"):
+        for name, pd in g[grp].items():
+            for part in ("values", "missing"):
+                a = pd.get(part)
+                if a is not None:
+                    out[f"{grp}/{name}/{part}"] = (a.tobytes(), str(a.dtype), a.shape)
+    return out
+
+
+def snapshot_diff(before, after):
+    return sorted(k for k in set(before) | set(after) if before.get(k) != after.get(k))
 
 
 def _outcome(fn):
@@ -653,7 +703,15 @@ def dispatch_expected(c):
     if cfg["lineage"] and dec["track"] is not None and "lineage" in dec["track"]:
         active.append("lineage")
     failing = [f for f in active if f in c["bad"]]
-    return active, (VALIDATOR_OF_FLAG[failing[0]] if failing else None)
+    return active, (flag_call(c, failing[0]) if failing else None)
+
+
+def flag_call(c, flag):
+    """the validator whose error is due when the data of `flag` is invalid (an edge-only geff fails the
+    endpoint check, the other graph-invalid geffs hold a repeated edge)"""
+    if flag == "graph" and c.get("shape") == "edge-only":
+        return CALLS[1]
+    return VALIDATOR_OF_FLAG[flag]
 
 
 GRAPH_SHAPES = {
@@ -663,14 +721,16 @@ GRAPH_SHAPES = {
     "edgeless": (4, [], ["sphere", "ellipsoid", "lineage", "tracklet"]),
     "single-node": (1, [], ["sphere", "ellipsoid"]),
     "empty": (0, [], ["sphere", "ellipsoid"]),
+    "edge-only": (0, [[0, 1]], ["sphere", "ellipsoid"]),     # no nodes but an edge: graph validation must fail
 }
+ALWAYS_BAD = {"edge-only": ["graph"]}
 
 
 def dispatch_data(shape, bad):
     """node ids, edges and the four property arrays; `bad` = validators whose data is invalid"""
     n, edges, _ = GRAPH_SHAPES[shape]
     edges = [list(e) for e in edges]
-    if "graph" in bad and edges:
+    if "graph" in bad and edges and shape != "edge-only":
         edges.append(list(edges[0]))            # repeated edge (collapses in networkx: tracks unaffected)
     if n == 0:   # no entry can be wrong: invalid = wrong rank / wrong matrix extent
         r = np.zeros((0, 2)) if "sphere" in bad else np.zeros((0,))
@@ -742,12 +802,13 @@ def dispatch_cases(full):
             bad_sets = [[f for i, f in enumerate(can_be_bad) if k >> i & 1] for k in range(2 ** len(can_be_bad))]
         else:
             bad_sets = [[]] + [[f] for f in can_be_bad] + [list(can_be_bad)]
+        bad_sets = [ALWAYS_BAD.get(shape, []) + b for b in bad_sets]
         for cfg in itertools.product([False, True], repeat=5):
             for ds in (False, True):
                 for de in (False, True):
                     for tr in TRACK_OPTS:
                         for bad in bad_sets:
-                            for omit in ((False, True) if full or shape in ("path", "edgeless") else (False,)):
+                            for omit in ((False, True) if full or shape in ("path", "edgeless", "edge-only") else (False,)):
                                 yield {"kind": "dispatch", "shape": shape, "config": list(cfg),
                                        "decl": {"sphere": ds, "ellipsoid": de, "track": tr}, "bad": bad, "omit": omit}
 
@@ -755,7 +816,7 @@ def dispatch_cases(full):
 def dispatch_req(c):
     dec = c["decl"]
     tr = dec["track"]
-    failing = [VALIDATOR_OF_FLAG[f] for f in c["bad"]]
+    failing = [flag_call(c, f) for f in c["bad"]]
     return {"op": "dispatch", "config": c["config"],
             "decl": [dec["sphere"], dec["ellipsoid"], tr is not None, tr is not None and "tracklet" in tr,
                      tr is not None and "lineage" in tr], "failing": failing}
@@ -795,6 +856,187 @@ def judge_dispatch(ck, c, im, mo):
                            {"calls": mcalled, "error_from": mfail})
 
 
+# ======================================================================= dispatch THROUGH THE READER
+STORE_DECLS = [{"sphere": True, "ellipsoid": True, "track": ["tracklet", "lineage"]},
+               {"sphere": True, "ellipsoid": False, "track": ["tracklet"]},
+               {"sphere": False, "ellipsoid": True, "track": ["lineage"]},
+               {"sphere": False, "ellipsoid": False, "track": None}]
+ALL_CONFIGS = [list(c) for c in itertools.product([False, True], repeat=5)]
+
+
+def _dispatch_geff(shape, bad, decl, variant="plain", directed=True):
+    """in-memory geff of the dispatch grid (axis properties a0..a2 included so that it can be stored)"""
+    ids, edges, arrs = dispatch_data(shape, set(bad))
+    n = len(ids)
+    for a in ("a0", "a1", "a2"):
+        arrs[a] = np.zeros(n)
+    track = None if decl["track"] is None else {k: {"tracklet": "trk", "lineage": "lin"}[k] for k in decl["track"]}
+    md = _meta(directed=directed, axes=["time", "space", "space"], sphere="r" if decl["sphere"] else None,
+               ellipsoid="cov" if decl["ellipsoid"] else None, track=track,
+               props=[("r", "float64"), ("cov", "float64"), ("trk", "int64"), ("lin", "int64"),
+                      ("a0", "float64"), ("a1", "float64"), ("a2", "float64")])
+    return {"metadata": md, "node_ids": variant_array(ids, variant), "edge_ids": variant_array(edges, variant),
+            "node_props": {k: {"values": variant_array(v, variant), "missing": None} for k, v in arrs.items()},
+            "edge_props": {}}
+
+
+def _classify(out):
+    if out["o"] == "ValueError":
+        out["call"] = next((cn for p, cn in MSG2CALL if out.get("msg", "").startswith(p)), None)
+    return out
+
+
+def impl_dispatch_store(c):
+    """write the geff with the raw writer (no structure validation: it is the data validation that is under
+    test), then read it back under every config with read_to_memory(data_validation=...) and, for the all-on
+    and the case's own configs, with geff.read(..., backend="networkx")"""
+    import geff
+    import zarr
+    from geff.core_io import write_arrays
+    from geff.core_io._base_read import read_to_memory
+    from geff.validate.data import ValidationConfig
+
+    g = _dispatch_geff(c["shape"], c["bad"], c["decl"])
+    st = zarr.storage.MemoryStore()
+    try:
+        write_arrays(st, g["node_ids"], g["node_props"], g["edge_ids"], {}, g["metadata"], structure_validation=False)
+    except Exception as ex:  # noqa: BLE001
+        return {"write_failed": type(ex).__name__ + ": " + str(ex)[:200]}
+    out = {"read_to_memory": [], "geff_read": {}}
+    for cfg in (ALL_CONFIGS if c.get("configs") is None else c["configs"]):
+        vc = ValidationConfig(**dict(zip(FLAGS, cfg)))
+        out["read_to_memory"].append(_classify(_outcome(
+            lambda vc=vc: read_to_memory(st, structure_validation=False, data_validation=vc))))
+    for cfg in ([True] * 5, [True, False, False, False, False], [False, True, True, False, False]):
+        vc = ValidationConfig(**dict(zip(FLAGS, cfg)))
+        out["geff_read"]["".join("1" if b else "0" for b in cfg)] = _classify(_outcome(
+            lambda vc=vc: geff.read(st, structure_validation=False, data_validation=vc, backend="networkx")))
+    return out
+
+
+def dispatch_store_cases(full):
+    for shape, (_n, _e, can_be_bad) in GRAPH_SHAPES.items():
+        if full:
+            bad_sets = [[f for i, f in enumerate(can_be_bad) if k >> i & 1] for k in range(2 ** len(can_be_bad))]
+        else:
+            bad_sets = [[]] + [[f] for f in can_be_bad] + ([list(can_be_bad)] if len(can_be_bad) > 1 else [])
+        for bad in bad_sets:
+            for decl in (STORE_DECLS if full else STORE_DECLS[:2]):
+                yield {"kind": "dispatch_store", "shape": shape, "decl": decl, "bad": ALWAYS_BAD.get(shape, []) + bad}
+
+
+def judge_dispatch_store(ck, c, im):
+    if "write_failed" in im:
+        ck.case(c, f"dispatch_store:{c['shape']}:write-failed", nontrivial=False)
+        ck.extra.setdefault("dispatch_store_write_failed", []).append(im["write_failed"])
+        return
+    cfgs = ALL_CONFIGS if c.get("configs") is None else c["configs"]
+    reads = [(cfg, r, "read_to_memory") for cfg, r in zip(cfgs, im["read_to_memory"])]
+    reads += [([ch == "1" for ch in k], r, "geff.read") for k, r in im["geff_read"].items()]
+    for cfg, r, how in reads:
+        cc = {**c, "config": list(cfg), "omit": False}
+        _, want_fail = dispatch_expected(cc)
+        ck.case({**cc, "via": how}, f"dispatch_store:{c['shape']}:{how}:{'raises' if want_fail else 'ok'}", nontrivial=any(cfg))
+        rc = {**c, "configs": [list(cfg)], "via": how}
+        if r["o"] not in ("ok", "ValueError"):
+            ck.fail("C12:reader-dispatch-exception", f"{how}(data_validation={dict(zip(FLAGS, cfg))}) raised {r['o']}", rc, r, want_fail)
+        elif (r["o"] == "ok") != (want_fail is None):
+            if r["o"] == "ok":
+                ck.fail("C12:reader-skips-enabled-validator",
+                        f"{how}(data_validation={dict(zip(FLAGS, cfg))}) on a {c['shape']} geff accepts data that {want_fail} must reject "
+                        "(validate_data called directly rejects it)", rc, r, want_fail)
+            else:
+                ck.fail("C12:reader-rejects-valid", f"{how}(data_validation=...) raised {r.get('msg')!r} on valid data", rc, r, None)
+        elif want_fail is not None and r.get("call") != want_fail:
+            ck.fail("C12:reader-dispatch-wrong-error", f"{how}: error comes from {r.get('call')}, expected {want_fail}", rc, r, want_fail)
+
+
+# ======================================================================= histories on one in-memory geff; array variants
+def impl_history(c):
+    """a sequence of validate_data calls on the SAME in-memory geff object (config and directedness vary);
+    every array is snapshotted before and after each call"""
+    from geff.validate.data import ValidationConfig, validate_data
+
+    src = c["geff"]
+    if "shape" in src:
+        g = _dispatch_geff(src["shape"], src["bad"], src["decl"], variant=c["variant"])
+    else:
+        dt = np.dtype(src["dtype"])
+        g = {"metadata": _meta(), "node_ids": variant_array(np.asarray(src["ids"], dtype=dt), c["variant"]),
+             "edge_ids": variant_array(np.asarray(src["edges"], dtype=dt).reshape(-1, 2), c["variant"]),
+             "node_props": {}, "edge_props": {}}
+    steps = []
+    for st in c["steps"]:
+        g["metadata"].directed = st["directed"]
+        before = snapshot(g)
+        r = _classify(_outcome(lambda st=st: validate_data(g, ValidationConfig(**dict(zip(FLAGS, st["config"]))))))
+        r["modified"] = snapshot_diff(before, snapshot(g))
+        steps.append(r)
+    return {"steps": steps}
+
+
+def history_expected(c, st):
+    src = c["geff"]
+    if "shape" in src:
+        _, want = dispatch_expected({"shape": src["shape"], "bad": src["bad"], "decl": src["decl"], "config": st["config"]})
+        return want
+    if not st["config"][0]:
+        return None
+    o = graph_oracle(src["ids"], src["edges"])
+    if o["valid_directed" if st["directed"] else "valid_undirected"]:
+        return None
+    return "graph-error"
+
+
+def history_cases(rng, n_graph, n_dispatch):
+    fixed = [
+        {"dtype": "int64", "ids": [1, 2, 3], "edges": [[1, 2], [2, 1], [3, 1]]},      # valid directed, repeated undirected
+        {"dtype": "int64", "ids": [1, 2, 3], "edges": [[2, 1], [3, 2], [3, 1]]},      # valid both ways, rows not in (min,max) order
+        {"dtype": "uint8", "ids": [0, 255, 7], "edges": [[255, 0], [7, 255]]},
+    ]
+    g_on, g_off = [True, False, False, False, False], [False] * 5
+    seqs = [[(False, g_on), (True, g_on)], [(False, g_on), (True, g_on), (False, g_on)], [(True, g_on), (False, g_on), (True, g_on)],
+            [(False, g_off), (False, g_on), (True, g_on)]]
+    for src in fixed:
+        for seq in seqs:
+            for v in VARIANTS:
+                yield {"kind": "history", "geff": src, "variant": v, "steps": [{"directed": d, "config": cf} for d, cf in seq]}
+    for i in range(n_graph):
+        gc = graph_random(rng)
+        if not gc["edges"]:
+            continue
+        k = rng.randint(2, 4)
+        yield {"kind": "history", "geff": {"dtype": gc["dtype"], "ids": gc["ids"], "edges": gc["edges"]}, "variant": VARIANTS[i % len(VARIANTS)],
+               "steps": [{"directed": rng.random() < 0.5, "config": [rng.random() < 0.85, False, False, False, False]} for _ in range(k)]}
+    shapes = list(GRAPH_SHAPES)
+    for i in range(n_dispatch):
+        shape = shapes[i % len(shapes)]
+        can = GRAPH_SHAPES[shape][2]
+        bad = ALWAYS_BAD.get(shape, []) + [f for f in can if rng.random() < 0.25]
+        yield {"kind": "history", "geff": {"shape": shape, "bad": bad, "decl": rng.choice(STORE_DECLS)},
+               "variant": VARIANTS[(i // len(shapes)) % len(VARIANTS)],
+               "steps": [{"directed": rng.random() < 0.5, "config": [rng.random() < 0.5 for _ in range(5)]} for _ in range(rng.randint(2, 4))]}
+
+
+def judge_history(ck, c, im):
+    form = "dispatch" if "shape" in c["geff"] else "graph"
+    ck.case(c, f"history:{form}:{c['variant']}:steps={len(c['steps'])}", nontrivial=True)
+    for k, (st, r) in enumerate(zip(c["steps"], im["steps"])):
+        want = history_expected(c, st)
+        if r["modified"]:
+            ck.fail("C12:validate_data-modifies-input",
+                    f"validate_data changed its input arrays {r['modified']} (step {k}, directed={st['directed']}, config={st['config']})",
+                    c, r, "inputs unchanged")
+        got = None if r["o"] == "ok" else (r.get("call") if form == "dispatch" else
+                                          ("graph-error" if r["o"] == "ValueError" and r.get("call") in CALLS[:4] else r["o"]))
+        if r["o"] not in ("ok", "ValueError"):
+            key = "C12:array-variant-exception" if c["variant"] != "plain" else "C12:history-exception"
+            ck.fail(key, f"validate_data raised {r['o']}: {r.get('msg', '')} on {c['variant']} input arrays (step {k})", c, r, want)
+        elif got != want:
+            key = "C12:history-dependent-verdict" if k > 0 else ("C12:array-variant-verdict" if c["variant"] != "plain" else "C12:history-first-step")
+            ck.fail(key, f"step {k} (directed={st['directed']}, config={st['config']}, arrays {c['variant']}): got {got}, expected {want}", c, r, want)
+
+
 # ======================================================================= lineage ids with a missing mask (D14)
 def lineage_oracle(c):
     """C14's definition on the labelled nodes: every id class is exactly one weakly connected component of the
@@ -830,10 +1072,22 @@ def impl_lineage(c):
 
     m = c["missing"]
     md = _meta(track={"lineage": "lin"}, props=[("lin", "int64")])
-    g = {"metadata": md, "node_ids": np.asarray(c["nodes"], dtype=np.int64),
-         "edge_ids": np.asarray(c["edges"], dtype=np.int64).reshape(-1, 2),
-         "node_props": {"lin": {"values": np.asarray(c["labels"], dtype=np.int64),
-                                "missing": None if m is None else np.asarray(m, dtype=bool)}}, "edge_props": {}}
+    v = c.get("variant", "plain")
+    g = {"metadata": md, "node_ids": variant_array(np.asarray(c["nodes"], dtype=np.int64), v),
+         "edge_ids": variant_array(np.asarray(c["edges"], dtype=np.int64).reshape(-1, 2), v),
+         "node_props": {"lin": {"values": variant_array(np.asarray(c["labels"], dtype=np.int64), v),
+                                "missing": None if m is None else variant_array(np.asarray(m, dtype=bool), v)}}, "edge_props": {}}
+    before = snapshot(g)
+    r = _impl_lineage_run(g)
+    mod = snapshot_diff(before, snapshot(g))
+    if mod:
+        r["modified"] = mod
+    return r
+
+
+def _impl_lineage_run(g):
+    from geff.validate.data import ValidationConfig, validate_data
+
     try:
         validate_data(g, ValidationConfig(lineage=True))
         return {"valid": True, "bad": []}
@@ -882,7 +1136,8 @@ def lineage_cases(rng, nmax, nrand):
             missing[rng.randrange(n)] = True
         elif r < 0.3:
             labels[rng.randrange(n)] = rng.choice(labels)
-        yield {"kind": "lineage_masked", "nodes": nodes, "labels": labels, "edges": edges, "missing": missing}
+        yield {"kind": "lineage_masked", "nodes": nodes, "labels": labels, "edges": edges, "missing": missing,
+               "variant": VARIANTS[rng.randrange(len(VARIANTS))]}
 
 
 def judge_lineage(ck, c, im, mo):
@@ -890,6 +1145,8 @@ def judge_lineage(ck, c, im, mo):
     masked = c["missing"] is not None and any(c["missing"])
     ck.case(c, "lineage_masked:" + ("valid" if want_valid else "invalid") + (":some-unlabelled" if masked else ""),
             nontrivial=bool(c["edges"]) or len(c["nodes"]) > 1)
+    if im.get("modified"):
+        ck.fail("C12:validate_data-modifies-input", f"validate_data(lineage=True) changed its input arrays {im['modified']}", c, im, "inputs unchanged")
     if "o" in im:
         ck.fail("C12:lineage-masked-exception", f"validate_data(lineage=True) raised {im['o']}", c, im, want_valid)
     elif im["valid"] != want_valid or im["bad"] != want_bad:
@@ -906,7 +1163,8 @@ def judge_lineage(ck, c, im, mo):
 
 # ======================================================================= the check
 IMPL = {"graph": impl_graph, "sphere": impl_sphere, "ellipsoid_shape": impl_ell_shape,
-        "ellipsoid_float": impl_ell_float, "dispatch": impl_dispatch, "lineage_masked": impl_lineage}
+        "ellipsoid_float": impl_ell_float, "dispatch": impl_dispatch, "lineage_masked": impl_lineage,
+        "dispatch_store": impl_dispatch_store, "history": impl_history}
 
 
 def impl_obs(c):
@@ -981,6 +1239,8 @@ def run(ck: common.Check):
     cases.extend(ell_float_systematic(ck.rng, rotations=4 if ck.quick else 24))
     cases.extend(dispatch_cases(full=not ck.quick))
     cases.extend(lineage_cases(ck.rng, 3, 1500 if ck.quick else 20000))
+    cases.extend(history_cases(ck.rng, 600 if ck.quick else 8000, 600 if ck.quick else 8000))
+    store_cases = list(dispatch_store_cases(full=not ck.quick))
     ck.extra["corpus_cases"] = n_corpus
     ck.extra["graph_exhaustive_cases"] = n_exh
 
@@ -1011,6 +1271,13 @@ def run(ck: common.Check):
             judge_dispatch(ck, c, im, mo[0] if mo else None)
         elif k == "lineage_masked":
             judge_lineage(ck, c, im, mo[0] if mo else None)
+        elif k == "history":
+            judge_history(ck, c, im)
+    # the dispatch grid through stores and the reader (one store per case, read under all 32 configs)
+    for c, im in zip(store_cases, common.pmap(impl_dispatch_store, store_cases, chunksize=1) if len(store_cases) >= 64
+                     else [impl_dispatch_store(c) for c in store_cases]):
+        per_kind["dispatch_store"] = per_kind.get("dispatch_store", 0) + 1
+        judge_dispatch_store(ck, c, im)
     ck.extra["cases_per_kind"] = per_kind
     # a sample of the graph cases through a store and read_to_memory(data_validation=graph)
     gs = [c for c in cases if c["kind"] == "graph" and c["ids"]]
@@ -1077,6 +1344,10 @@ def replay(rp):
         judge_dispatch(r, c, im, None)
     elif k == "lineage_masked":
         judge_lineage(r, c, im, None)
+    elif k == "history":
+        judge_history(r, c, im)
+    elif k == "dispatch_store":
+        judge_dispatch_store(r, c, im)
     print(json.dumps({"case": c, "impl": im, "failures": r.f}, default=str))
     print("REPLAY: property holds on this input" if not r.f else "REPLAY: property FAILS on this input")
     return 0 if not r.f else 1
